@@ -1159,6 +1159,17 @@ class _ObserverRun:
             steps += 1
             stats[f"fault:restart-{name.replace(' ', '-')}"] += 1
             self._q2(c, m, cls, name)
+            if kind != 2:
+                # the copy's OWN presence flag (it decides whether the copy is encoded once it is assigned to a
+                # field of a parent) is that of the object it was copied from; a pickle round trip goes through
+                # the wire form, which cannot carry it
+                try:
+                    sc, sb = betterproto.serialized_on_wire(c), betterproto.serialized_on_wire(base)
+                except Exception as e:  # noqa: BLE001
+                    raise Violation("C14.Q2", f"serialized_on_wire-raises-{type(e).__name__}", f"{name}: {e}")
+                if sc != sb:
+                    raise Violation("C14.Q2", f"presence-differs:{name.split()[0]}",
+                                    f"{name}: serialized_on_wire(copy) is {sc}, that of the object it was copied from is {sb}")
             copies.append((kind, c, name))
         trace.append("copies: " + ", ".join(n for _, _, n in copies))
         # the copies must not have disturbed the original either
